@@ -93,24 +93,29 @@ def showDest : Dest → String
   | .devFull => "devfull"
   | .uncreatable => "nodir"
 
-/-- `S08 flag src dest` with dest ∈ `absent | pre:<hex> | devfull | nodir` -/
+/-- `S08 flag src dest [lim]` with dest ∈ `absent | pre:<hex> | devfull | nodir` and `lim` ∈
+`- | <hex byte count>` (a file size limit in force while `lace compile` runs). The answer names
+the exit status, the destination afterwards and the number of files left behind next to it. -/
 def handleS08 (toks : List String) : String :=
-  match toks with
-  | [so, src, dest] =>
+  let go (so src dest : String) (lim : Option (Option Nat)) : String :=
     let d : Option Dest :=
       if dest == "absent" then some (.file none)
       else if dest == "devfull" then some .devFull
       else if dest == "nodir" then some .uncreatable
       else if dest.startsWith "pre:" then (parseBytes (dest.drop 4).toString).map (fun b => Dest.file (some b))
       else none
-    match parseHex so, parseText src, d with
-    | some so, some src, some d =>
+    match parseHex so, parseText src, d, lim with
+    | some so, some src, some d, some lim =>
       match parsedOf (so != 0) src with
       | none => "M st=panic"
       | some p =>
-        let r := compile p d
-        "M st=" ++ toString r.1 ++ " dest=" ++ showDest r.2
-    | _, _, _ => "bad-request"
+        let r := compileFs { limit := lim } p { dest := d }
+        "M st=" ++ toString r.1 ++ " dest=" ++ showDest r.2.dest ++
+          " extra=" ++ (match r.2.tmp with | none => "0" | some _ => "1")
+    | _, _, _, _ => "bad-request"
+  match toks with
+  | [so, src, dest] => go so src dest (some none)
+  | [so, src, dest, lim] => go so src dest (if lim == "-" then some none else (parseHex lim).map some)
   | _ => "bad-request"
 
 end Lace.Driver
